@@ -481,6 +481,7 @@ Proof.
       rewrite wrap32s_id by (unfold INT_MAX; unfold atomMax in Emax; lia).
       destruct (Z.eqb_spec (snd (y_atom y)) 0); [lia|].
       rewrite <- !app_assoc.
+      unfold m_get, a_peek. cbn [rest app]. replace (y_sep y =? 0) with false by lia.
       destruct (a_get_plain (y_sep y) (y_name y ++ flat_map r_sym l ++ r_zero w ++ r) ln1 ltac:(lia)) as [ln2 E2].
       rewrite E2. cbn [snd].
       rewrite (app_assoc (flat_map r_sym l)), syms_text, <- app_assoc.
